@@ -8,7 +8,7 @@ from ..callgraph import get_callgraph
 from ..cfg import cfg_of
 from ..locks import accesses, get_locks
 from ..model import AnalysisError, NotConst, dotted, norm, walk_own
-from .common import cmp_fact, find_calls, guards_of, key_of, mentions, mentions_attr
+from .common import cmp_fact, find_calls, guards_of, key_of, mentions, mentions_attr, resolve_locals
 
 EXPLANATION = (
     "Finite abstract evaluation of the response-header decision ladder: build_response_header touches its inputs only "
@@ -678,7 +678,30 @@ def rule_r12(ctx):
     c04.rule_r4(ctx, rid="C03.R12")
 
 
-RULES = [rule_r1, rule_r2, rule_r3, rule_r4, rule_r5, rule_r6, rule_r7, rule_r8, rule_error_route, rule_buffers, rule_r11, rule_r12]
+def rule_r13(ctx, rid="C03.R13"):
+    ctx.r.rule(rid, "a length the application declared is never replaced by a guessed one: in WSGITask.execute the store `self.content_length = <length of the only chunk>` is reached only when no length was declared (`self.content_length is None` - a declared 0 is a declaration), the file-wrapper path only stores what prepare() returned")
+    p = ctx.p
+    f = p.func("task.WSGITask.execute")
+    g = cfg_of(f)
+    stores = [n for n in g.nodes if n.kind == "stmt" and isinstance(n.ast, ast.Assign) and any(dotted(t) == "self.content_length" for t in n.ast.targets)]
+    ctx.r.floor(rid, len(stores), 2, "stores of content_length in WSGITask.execute")
+    for n in stores:
+        v = n.ast.value
+        src = resolve_locals(f, v) if isinstance(v, ast.Name) else v
+        if isinstance(src, ast.Call) and isinstance(src.func, ast.Attribute) and src.func.attr == "prepare":
+            ctx.r.ok(rid, "file wrapper: the length becomes what prepare() can deliver", f.loc(n.ast))
+            continue
+        gs = guards_of(g, n)
+        strict = any(pol and isinstance(t, ast.Compare) and len(t.ops) == 1 and isinstance(t.ops[0], ast.Is) and dotted(t.left) == "self.content_length"
+                     and isinstance(t.comparators[0], ast.Constant) and t.comparators[0].value is None for (t, pol) in gs)
+        if strict:
+            ctx.r.ok(rid, "a length is inferred only when none was declared", f.loc(n.ast))
+        else:
+            loose = [norm(t) for (t, pol) in gs if "content_length" in norm(t)]
+            ctx.r.violation(rid, key_of(f, None, "declared-length-replaced"), "`%s` is not guarded by `self.content_length is None` (guards on the length: %s): a declared Content-Length - 0 for instance - is replaced after the head announced it, the body bytes follow a head that says there are none and run into the next response" % (norm(n.ast), loose or "none"), f.loc(n.ast))
+
+
+RULES = [rule_r1, rule_r2, rule_r3, rule_r4, rule_r5, rule_r6, rule_r7, rule_r8, rule_error_route, rule_buffers, rule_r11, rule_r12, rule_r13]
 
 from ..selftest import M, T, V  # noqa: E402
 
